@@ -52,6 +52,31 @@ def proofRecorded (i : WriteIn) : Bool := admitted i && (i.kind == 1 || i.kind =
 NXDOMAIN only, never over an Opt-Out span. -/
 def cutRecorded (i : WriteIn) : Bool := admitted i && i.nx && !(i.fam == 2 && i.optout)
 
+/-! ### prefetch write-back (prefetch_queue.go) and the RFC 8020 stop (processAuthoritySection) -/
+
+/-- a successful background refresh reaching the write-back. -/
+structure PrefetchIn where
+  entryScoped : Bool   -- the refreshed entry was admitted under an ECS scope
+  reqCD : Bool         -- the original client request had CD=1
+  hadECS : Bool        -- … carried ECS when the entry was claimed (req.RequestHadECS)
+  reqECSOpt : Bool     -- … still carries an ECS option (hasEDNSClientSubnet(req.Request))
+  respCD : Bool
+  marked : Bool        -- provenance found for this exact response
+  agg : Bool
+  nx : Bool
+deriving Repr, DecidableEq
+
+/-- the guard around RecordDenialProof / RecordNXDomainCut in the prefetch worker. -/
+def prefetchAdmitted (i : PrefetchIn) : Bool :=
+  !i.entryScoped && !i.reqCD && !i.hadECS && !i.reqECSOpt && !i.respCD && i.marked && i.agg
+
+def prefetchCut (i : PrefetchIn) : Bool := prefetchAdmitted i && i.nx
+
+/-- `processAuthoritySection`: stop QNAME minimisation at a minimised NXDOMAIN
+(RFC 8020) only for locally validated, aggressive-eligible, non-Opt-Out proofs. -/
+def rfc8020Stop (marked aggressive proofNX optOutInProof : Bool) : Bool :=
+  marked && aggressive && proofNX && !optOutInProof
+
 /-! ### Resolver.authority, negative branch (r.dnssec && verified) -/
 
 inductive Family | nsec | nsec3
